@@ -13,7 +13,7 @@ RULE = (
     "Hypothesis universes over worlds (<= 6 vertices, <= 10 links of the directed/undirected families incl. "
     "subclasses: isolated vertices, self-loops, parallel edges, undirected edges, neighbours outside the universe; "
     "other link classes make neighbors() raise under basic_render's defaults and are excluded by construction), "
-    "rfunc in {None (repr), index title}, sort in {None, key on i, reversed key, key with ties}.  Oracle: the exact "
+    "rfunc in {None (repr), index titles incl. ones ending in ',' / ' ' / '->'}, sort in {None, key on i, reversed key, key with ties}.  Oracle: the exact "
     "expected text built from the reference FORWARD neighbour lists: lines in universe order (or sorted by the "
     "key), each `r(v) + ' -> ' + ', '.join(r(n))` with neighbours in neighbors() order (stable-sorted by the key "
     "when given); for a vertex without neighbours both 'x -> ' and 'x ->' are accepted; empty universe => None.  "
@@ -35,6 +35,8 @@ def budget(tier):
 
 
 def strategy(tier):
+    # classes 0-3: directed/undirected and a subclass of each (index 6, the multiply-inheriting directed class, is
+    # left to C14/C15; indices 4/5 are unknown-class links, which make basic_render's neighbors() raise)
     return render.cases(classes=4)
 
 
@@ -45,7 +47,9 @@ def check_case(case):
     G = graphs.abstract(vs, ls)
     use_r = bool(case["opt"] & 1)
     sortsel = (case["opt"] >> 1) % 4
-    title = lambda v: "t%d" % v.i
+    # renderings may end in the characters of the separator (a comma, a blank): nothing of them may be lost
+    fmt = ["t%d", "t%d,", "t%d ", " ,t%d, ", "%d->", "t%d", "t%d", "t%d"][case["extra"] % 8]
+    title = lambda v: fmt % v.i
     r = title if use_r else repr
     keys = [None, lambda v: v.i, lambda v: -v.i, lambda v: v.i % 2][sortsel]
     try:
@@ -73,10 +77,12 @@ def check_case(case):
     got = txt.split("\n")
     require(len(got) == len(exp_lines), "line-count", f"{len(got)} lines for {len(exp_lines)} members: {txt!r}")
     for k, (g, (e, empty)) in enumerate(zip(got, exp_lines)):
-        ok = g == e or (empty and g == e.rstrip(" "))
+        ok = g == e or (empty and g == e[:-1])
         if not ok:
             raise Violation("line-mismatch" if not empty else "isolated-vertex-line", f"line {k}: got {g!r}, expected {e!r}")
     classes = ["rfunc" if use_r else "repr", f"sort{sortsel}"]
+    if use_r and fmt != "t%d":
+        classes.append("rendering-ends-in-separator-characters")
     if iso:
         classes.append("isolated-member")
     if many:
